@@ -93,6 +93,32 @@ def check_query(col, kind, factory, admit, q):
         M.quiet(cleanup)
 
 
+def check_empty_extras(col, kind, factory, admit, q):
+    """An empty collection of extra parameters is no extra parameter: the result is as cacheable as without (and is reused)."""
+    ref = M.Sem(q)
+    if not (ref.ok and not ref.volatile and ref.caching_on) or M.parse(q).filename() is not None:
+        return
+    canon = M.parse(q).encode()
+    for empty in ([], {}):
+        c, cleanup = M.quiet(factory)
+        sim = M.CacheSim(admit)
+        try:
+            o1 = M.run(q, cache=c, extra=empty)
+            sim.run(q)
+            col.evaluations += 1
+            if not o1.ok or not M.same_value(o1.value, ref.value) or canon not in sim.cached:
+                continue
+            o2 = M.run(q, cache=c)
+            exp2, _f = sim.run(q)
+            col.evaluations += 1
+            if surplus(o2.calls, exp2):
+                col.add(CONTRACT, "Context.evaluate / %s" % kind, known=None, query=q, cache=kind, extra_parameters=repr(empty),
+                        problem="re-evaluation executed commands after an evaluation with an EMPTY collection of extra parameters",
+                        executed=o2.calls, allowed=exp2)
+        finally:
+            M.quiet(cleanup)
+
+
 def bounded(tier, seed):
     import random
     t0 = time.time()
@@ -115,6 +141,8 @@ def bounded(tier, seed):
         n0 = col.evaluations
         for q in qs:
             check_query(col, kind, factory, admit, q)
+        for q in SPECIAL[:8]:
+            check_empty_extras(col, kind, factory, admit, q)
         standins.append(M.standin("%s: reuse of cached results" % kind,
                                   "%d successful non-volatile queries (22 hand-picked incl. attribute/namespace/spelling cases + %s of all_queries(%s)), "
                                   "each: cold, repeat, up to 8 extensions of its two longest prefixes" % (len(qs), "a stride" if kind == "MemoryCache" else "a seeded sample", tier),
